@@ -7,5 +7,6 @@ CONSTANTS
   MaxOps = 14
   MaxDeletes = 3
   Coords = {"A", "B", "X"}
+  MaxRestores = 2
   GetDs = {0, 1}
 CHECK_DEADLOCK FALSE
